@@ -222,9 +222,13 @@ MISSING_DEP_SHAPES = [
     # a later change of the attribute no longer reaches the users of Sub().x
     ("inherited-attr", lambda hist: len(hist) >= 3, "base-class-attributes-changed-after-subclass-module-was-analysed"),
     ("self-type", lambda hist: len(hist) >= 3, "base-class-attributes-changed-after-subclass-module-was-analysed"),
+    # the same for a base class reached as `pkg.sub.C` / `from pkg.sub import C`: the dependencies of a `class S(C)`
+    # statement (base expression, inherited attributes) are not regenerated when only the module top level is reprocessed
+    ("module-getattr", lambda hist: len(hist) >= 3, "base-class-attributes-changed-after-subclass-module-was-analysed"),
     # the name was a variable of declared type Any (valid as a type, analysed to Any): no dependency on the name
     # is recorded for the annotation that used it
-    ("class-kind", lambda hist: 5 in hist[:-1], "annotation-resolved-to-any-typed-variable"),
+    # (or the defining module was missing, which makes the imported name an Any-typed variable as well)
+    ("class-kind", lambda hist: 5 in hist[:-1] or -1 in hist[:-1], "annotation-resolved-to-any-typed-variable"),
 ]
 
 
@@ -311,12 +315,15 @@ def step_events(prev_files: dict | None, files: dict, edits: list[dict], hist_st
     # construct scenarios: the variants the defining module of each instance has gone through
     vh = hist_state.setdefault("variants", {})
     for e in edits:
-        if e.get("kind") in ("variant", "restore-definer", "add-stub") and e.get("scenario") and "to" in e:
+        if e.get("kind") in ("variant", "restore-definer", "add-stub", "delete-definer") and e.get("scenario") and e.get("module"):
             idx = re.sub(r"\D", "", e["module"].split(".")[-1])
             ent = vh.setdefault(idx, {"scenario": e["scenario"], "hist": []})
-            if not ent["hist"] and "from" in e:
-                ent["hist"].append(e["from"])
-            ent["hist"].append(e["to"])
+            if e["kind"] == "delete-definer":
+                ent["hist"].append(-1)          # the defining module is absent
+            elif "to" in e:
+                if not ent["hist"] and e.get("from") is not None:
+                    ent["hist"].append(e["from"])
+                ent["hist"].append(e["to"])
     hist_state["stub_removed"] = []
     hist_state["new_stdlib_imports"] = []
     if prev_files is None:
